@@ -383,6 +383,13 @@ func (m *model) observe(o obs) error {
 // observeSeries records the answer of GenSeriesID; the tag keys / values of the row become
 // known names (their ids are resolved through the lookups later).
 func (m *model) observeSeries(i int, r rowSpec, id uint32) error {
+	return m.observeSeriesOpt(i, r, id, true)
+}
+
+// observeSeriesOpt with tagNames=false records only the series: used on a recovered node for a
+// series that was found (GenSeriesID then creates no tag key / tag value, and whether the tag
+// names of a found series survived the crash is not this property's business).
+func (m *model) observeSeriesOpt(i int, r rowSpec, id uint32, tagNames bool) error {
 	k := r.mkey()
 	mm := m.metric(k)
 	byTags := m.series[i][k]
@@ -396,8 +403,10 @@ func (m *model) observeSeries(i int, r rowSpec, id uint32) error {
 		s = &seriesM{ident: ident{seq: m.seq}, tags: r.Tags}
 		byTags[c] = s
 	}
-	for _, t := range r.Tags {
-		mm.tagKey(t.K, m.seq).value(t.V, m.seq)
+	if tagNames {
+		for _, t := range r.Tags {
+			mm.tagKey(t.K, m.seq).value(t.V, m.seq)
+		}
 	}
 	return s.set(fmt.Sprintf("series idx%d %s{%s}", i, k, c), id)
 }
@@ -621,6 +630,9 @@ func resolve(n *node, m *model, exact bool) error {
 			seenF[name] = true
 			x := mm.fields[name]
 			if x == nil {
+				if !exact {
+					continue
+				}
 				return fmt.Errorf("LOOKUP DISAGREES: schema of %s has field %q (id %d) that nobody created", k, name, f.ID)
 			}
 			if err := x.set(fmt.Sprintf("field %s.%s (GetSchema)", k, name), uint32(f.ID)); err != nil {
@@ -640,6 +652,9 @@ func resolve(n *node, m *model, exact bool) error {
 			seenT[t.Key] = true
 			x := mm.tagKeys[t.Key]
 			if x == nil {
+				if !exact {
+					continue
+				}
 				return fmt.Errorf("LOOKUP DISAGREES: schema of %s has tag key %q (id %d) that nobody created", k, t.Key, t.ID)
 			}
 			if err := x.set(fmt.Sprintf("tag key %s[%s] (GetSchema)", k, t.Key), uint32(t.ID)); err != nil {
